@@ -19,7 +19,7 @@ from contextvars import copy_context, Context
 from functools import partial
 from threading import local, Event as _threading_Event, Lock as _threading_Lock
 from typing import TypeVar, TypeAlias
-from weakref import finalize, WeakSet
+from weakref import finalize, WeakSet, WeakValueDictionary
 
 __all__ = ['Subsystem', 'Event', 'ReadWriteLock', 'FileLock', 'EventT', 'RetT']
 
@@ -37,6 +37,12 @@ class Subsystem(metaclass=ABCMeta):
     :mod:`asyncio` or :mod:`threading`.
 
     """
+
+    def __init__(self) -> None:
+        super().__init__()
+        self._shared_rwlocks: WeakValueDictionary[str, ReadWriteLock] = \
+            WeakValueDictionary()
+        self._shared_guard = _threading_Lock()
 
     @classmethod
     def for_executor(cls, executor: Executor | None) -> Subsystem:
@@ -89,6 +95,20 @@ class Subsystem(metaclass=ABCMeta):
     def new_rwlock(self) -> ReadWriteLock:
         """Return a new read-write lock."""
         ...
+
+    def shared_rwlock(self, key: str) -> ReadWriteLock:
+        """Return the read-write lock shared by everything that asks for the
+        same key, for as long as any of them keeps a reference to it.
+
+        Args:
+            key: Identifies the resource guarded by the lock.
+
+        """
+        with self._shared_guard:
+            lock = self._shared_rwlocks.get(key)
+            if lock is None:
+                self._shared_rwlocks[key] = lock = self.new_rwlock()
+            return lock
 
     @abstractmethod
     def new_event(self) -> Event:
